@@ -1209,9 +1209,34 @@ fn mall_probe(pool: &Pool, lines: &mut Vec<String>) {
     pu.inputs[0].unknown.insert(unknown_key(9), vec![9]);
     let fin_ok = pu.finalize_mall_mut(&secp).is_ok();
     let keeps = fin_ok && !pu.inputs[0].unknown.is_empty();
+    // hypothesis try_nonempty: what happens when the satisfaction is (empty, empty)?  Only an
+    // insane output can have one: the bare script `1`.
+    let tx1 = bitcoin::Transaction {
+        version: bitcoin::transaction::Version::TWO,
+        lock_time: bitcoin::absolute::LockTime::ZERO,
+        input: vec![bitcoin::TxIn {
+            previous_output: bitcoin::OutPoint { txid: bitcoin::Txid::from_byte_array([8u8; 32]), vout: 0 },
+            script_sig: ScriptBuf::new(),
+            sequence: bitcoin::Sequence::MAX,
+            witness: Witness::new(),
+        }],
+        output: vec![bitcoin::TxOut { value: bitcoin::Amount::from_sat(9_000), script_pubkey: ScriptBuf::from_bytes(vec![0x51]) }],
+    };
+    let mut pe = Psbt::from_unsigned_tx(tx1).unwrap();
+    pe.inputs[0].witness_utxo = Some(bitcoin::TxOut { value, script_pubkey: ScriptBuf::from_bytes(vec![0x51]) });
+    pe.inputs[0].bip32_derivation.insert(k.pk, (k.fp, k.path.clone()));
+    let er = catch_unwind(AssertUnwindSafe(|| {
+        let mut q = pe.clone();
+        let r = q.finalize_mall_mut(&secp).is_ok();
+        (r, is_final(&q.inputs[0]), q.inputs[0].bip32_derivation.len())
+    }));
+    let (e_ok, e_final, e_left) = er.unwrap_or((false, false, 99));
     lines.push(
         J::obj(vec![
             ("t", J::s("mallprobe")),
+            ("empty_satisfaction_finalize_ok", J::B(e_ok)),
+            ("empty_satisfaction_input_final_afterwards", J::B(e_final)),
+            ("empty_satisfaction_bip32_entries_left", J::N(e_left as i64)),
             ("keeps_unknown", J::B(keeps)),
             ("unknown_probe_finalized", J::B(fin_ok)),
             ("finalize_mut", J::B(a)),
